@@ -467,6 +467,8 @@ def judge_into(events, sm):
                     fx = sm.effects.setdefault(fam, {})
                     for k in c04_real.effects(e):
                         fx[k] = fx.get(k, 0) + 1
+                    if e['muts'] and [m for m in e['mods'] if m != 'none']:
+                        fx['mutated-terminus'] = fx.get('mutated-terminus', 0) + 1
                     if 'readded' in c04_real.effects(e) and 'renamed' in c04_real.effects(e):
                         sm.samples.setdefault('real', {'kind': 'recorded repair of a real residue judged by TLC', 'where': e['where'], 'case': e['info'],
                                                        'names_in': e['names_in'], 'out': [[o['name'], o['ptm']] for o in e['out']], 'verdict rests on': note})
@@ -576,7 +578,9 @@ def struct_cases(tier, rng):
     req = [('trpcage', [['A-SER14', 'ALA'], ['A-ASP9', 'GLY']], None, 'mutate'), ('trpcage', [['GLY', 'ALA'], ['A-PRO12', 'GLY']], None, 'mutate'),
            ('trpcage', [['TYR3', 'PHE'], ['TYR3', 'PHE']], None, 'mutate'),
            ('trpcage', [], [['ASP9', 'ASP-HD2'], ['A-LYS8', 'LYS-LSN'], ['cter', 'COOH-ter'], ['nter', 'NH2-ter']], 'modify'),
-           ('dipro', [['PRO2', 'ALA']], [['nter', 'none'], ['cter', 'C-ter']], 'mutate')]
+           ('dipro', [['PRO2', 'ALA']], [['nter', 'none'], ['cter', 'C-ter']], 'mutate'),
+           # terminal residues: the reference is the target block patched with the terminus (once left OXT / HN2 / HN3 under the old name)
+           ('trpcage', [['A-SER20', 'GLY'], ['A-ASN1', 'ALA']], None, 'mutate'), ('dipro', [['PRO2', 'GLY']], None, 'mutate')]
     if not quick:
         req += [('sheet', [['THR', 'VAL'], ['A-SER', 'CYS']], None, 'mutate'), ('helix', [['ALA', 'SER'], ['A-GLU', 'GLN']], None, 'mutate'),
                 ('hst5', [['SER', 'THR'], ['GLY', 'ALA']], None, 'mutate'), ('hst5', [], [['LYS', 'LYS-LSN'], ['cter', 'COOH-ter'], ['nter', 'N-ter']], 'modify'),
@@ -591,17 +595,6 @@ def struct_cases(tier, rng):
                 case['mods'] = mods
             cases.append(case)
     return cases, structures
-
-
-def _known_terminus(kind, sc):
-    """Known finding: a residue carrying a mutation AND a modification keeps its old residue name on the atoms matched to the
-    modification's own atoms (nothing else differs: the verdict is about the residue name only)."""
-    return (sc.get('kind') == 'repairx' and sc.get('verdict') == 'residue-not-renamed-to-the-requested-block'
-            and bool(sc.get('muts')) and any(m != 'none' for m in sc.get('mods', []))
-            and any(o['resname'] != sc['muts'][0] for o in sc.get('out', [])) and all(o['resname'] in (sc['muts'][0], sc['resname']) for o in sc.get('out', [])))
-
-
-SIGNATURES = {'C19-mutated-terminus-resname': _known_terminus}
 
 
 def run(tier, seed, ev, vd):
@@ -627,13 +620,19 @@ def run(tier, seed, ev, vd):
     blocks = sorted(real_blocks())                     # loads the force fields and bin/martinize2 once, before any fork
     cases, structures = struct_cases(tier, rng)
     base_events = []
+    broken = set()
     for s in sorted(set(structures) | {c['structure'] for c in cases}):
         names, evs, crash = c04_real.baseline(s)
-        if crash or not names:
-            raise tlc.MachineryError('the undamaged structure %s does not pass the front end: %s' % (s, crash))
         for e in evs:
             e['touched'] = True
         base_events += evs
+        if crash:       # the shipped structure itself makes the front end raise: reported like any other failed repair
+            base_events.append(dict(CRASH_EVENT, crash='the front end raised %s on the undamaged structure %s' % (crash, s), info={'family': 'as-shipped'}))
+        if crash or not names:
+            if not evs and not crash:
+                raise tlc.MachineryError('the undamaged structure %s gives no recorded RepairGraph run' % s)
+            broken.add(s)       # its molecules were dropped / the run failed: the events above say so; no certificate, no damaged cases
+    cases = [c for c in cases if c['structure'] not in broken]
     nsyn = 480 if quick else 12000
     if quick:
         blocks = rng.sample(blocks, min(len(blocks), 96))
@@ -650,7 +649,7 @@ def run(tier, seed, ev, vd):
     per = 30 if quick else 150
     tasks += [('syn', per, seed * 613 + i) for i in range(nsyn // per)]
     tasks += [('events', chunk) for chunk in common.chunks(base_events, 4)]
-    sm = run_tasks(tasks, (6 if quick else 20, 15 if quick else 90))
+    sm = run_tasks(tasks, (6 if quick else 20, 25 if quick else 90))
     if sm.harness_errors:
         raise tlc.MachineryError('harness error in %d real-structure cases, e.g. %s' % (len(sm.harness_errors), sm.harness_errors[0]))
     ev.states += sm.states
@@ -669,7 +668,9 @@ def run(tier, seed, ev, vd):
                 missing.append('%s (no judged residue shows "%s")' % (f, want))
     if missing and not sm.nviol:
         raise tlc.MachineryError('vacuous real-structure families: %s; effects seen: %s' % (sorted(set(missing)), sm.effects))
-    if not sm.notes.get('cert'):
+    if not any(fx.get('mutated-terminus') for fx in sm.effects.values()) and not sm.nviol:
+        raise tlc.MachineryError('no mutated terminal residue (mutation + modification on one residue) was judged')
+    if not sm.notes.get('cert') and not sm.nviol:
         raise tlc.MachineryError('no certificate of a common subgraph was accepted by TLC: the lower bound was never exercised')
     ev.extra['events_by_presentation'] = sm.fam
     ev.extra['real_blocks_used'] = len(blocks)
